@@ -25,13 +25,15 @@ CLAIMED = {
     "C07": ("property-based testing (Hypothesis): metamorphic scaling ladders with an explicit decoupling envelope",
             "Generated base points are scaled by k = 1..64; the one-loop 1/k^2 law with (MZ/M)^2 corrections, the "
             "scale independence of the resummation factor, two-sided ratio windows / envelopes for every two-loop part "
-            "and the monotone approach of the uncertainty to its floor are checked on every rung.",
+            "and the monotone approach of the uncertainty to its floor are checked on every rung; Delta_tau stays fixed and "
+            "Delta_b exactly invariant; the same ladder walked in place on ONE model object must equal the fresh models.",
             "constants C1, C2 calibrated on the unchanged tree with a margin of ~7; 'up to logarithms' read as the stated window",
             "4/C07"),
     "C03": ("property-based testing (Hypothesis): differential comparison of the library's one-loop results with an "
             "independently written mpmath evaluation (own mass matrices, own diagonalisation, signed-mass convention)",
             "Generated MSSM and THDM parameter points over the stated domain; the reference shares no code, convention "
-            "or loop-function implementation with the library; tolerance 1e-8 of the sum of absolute terms.",
+            "or loop-function implementation with the library; tolerance 1e-8 of the sum of absolute terms; one MSSM point in "
+            "four is evaluated on a model object that has served another point before.",
             "correctness of the cited formulas as transcribed in pbt/c03_oneloop.py (cross-validated: they reproduce the "
             "library on all sign patterns); THDM reference uses the model's own Yukawa getters as the property states",
             "4/C03"),
@@ -39,7 +41,8 @@ CLAIMED = {
             "(mpmath), tree-level identities, tachyon-flag equivalence, generation-swap metamorphic relation",
             "Generated Lagrangian parameter sets incl. degenerate, massless and tachyonic spectra; all 17 sectors' "
             "mass/mixing pairs must diagonalise the reference matrix written from the Lagrangian; unitarity, ordering, "
-            "Goldstone positions, sum rules, RAII restore of mHd2/mHu2 and bit-exact generation exchange are checked.",
+            "Goldstone positions, sum rules, RAII restore of mHd2/mHu2 and bit-exact generation exchange are checked, also "
+            "on re-used objects.",
             "reference matrices in pbt/c04_spectrum.py (standard MSSM tree-level formulas); sampling, not proof",
             "4/C04"),
     "C08": ("property-based testing (Hypothesis): round trips mass basis -> getters -> gauge basis -> mass basis, "
@@ -101,14 +104,16 @@ CLAIMED = {
             "preservation (getter dump + raw object image hash), bit-identical repeatability, copy- and history-independence; "
             "generated 2..16-thread plans (own and shared const models, concurrent construction, yields) must produce zero "
             "TSan reports and exactly the sequential results; one point of every batch is re-evaluated alone in a fresh "
-            "executor process (history-free reference for state frozen at a first call).",
+            "executor process (history-free reference for state frozen at a first call); an MSSM object that served 1-3 other "
+            "points before must give bit for bit what a fresh object gives (sub-check reuse).",
             "TSan sees only executed interleavings; std::cerr writes of the library are suppressed (not part of the property)",
             "4/C19"),
     "C20": ("property-based testing (Hypothesis): unitarity and rejection oracle for CKM construction, defining relations "
             "of EW quantities, monotonicity/composition/boundary relations and an mpmath reference for running masses",
             "Generated Wolfenstein parameters inside/at/outside the admissible box, angles, SM inputs and scales over "
             "six decades; an in-range input may be refused only if the independently computed |V_ub| exceeds 1; "
-            "running-coupling bypass checked through the THDM Yukawa getters.",
+            "running masses against their documented running (independent implementation), also for the same alpha_s with "
+            "another MZ right afterwards; running-coupling bypass checked through the THDM Yukawa getters.",
             "m_b(SM5) reference re-implements hep-ph/0207126 formulas; one open known finding (Landau pole above m_b)",
             "4/C20"),
     "C12": ("property-based testing (Hypothesis): validity predicates on every decomposition overload (reconstruction in the "
@@ -152,7 +157,9 @@ CLAIMED = {
             "table for exception class / exit status / diagnostics, control group of valid points",
             "Generated valid MSSM and THDM points with one or two documented defects, crossed with force-output, the C++ API "
             "and the program in each input format and output format; refusal, exit status, absence of physics output, "
-            "presence of diagnostics and finiteness of undiagnosed results are checked.",
+            "presence of diagnostics and finiteness of undiagnosed results are checked. Tachyons are injected in four MSSM "
+            "sectors and, for the THDM, by building gauge-basis input with a chosen negative squared mass (shallow and "
+            "deep): a tachyon must be reported iff one was put in.",
             "defect table written from README/doxygen; the C entry points are exercised by C17",
             "4/C16"),
     "C18": ("property-based testing (Hypothesis): documented uncertainty sums recomputed from the public a_mu functions; "
